@@ -238,7 +238,17 @@ def _units():
     return units
 
 
-UNITS = _units()
+def lemma_lean_telescoping(U):
+    """(T)/(B)/(S) summed over the cells: Lean 4 + Mathlib (lean/Telescoping.lean), replacing the meta-level step"""
+    import os
+
+    from ..runner import VERIF
+    U.lean_file(os.path.join(VERIF, "lean", "Telescoping.lean"))
+
+
+UNITS = _units() + [("lemma.lean.telescoping", lemma_lean_telescoping)]
+# the Lean file loads Mathlib (seconds when cached, minutes from a cold disk): thorough tier
+THOROUGH_ONLY = {"lemma.lean.telescoping"}
 
 
 def replay(o):
@@ -269,7 +279,7 @@ def bounded(tier, seed):
 
 
 TRUSTED = ["pdv/specs/operators.py stencils (tied to the kernels by the (K) obligations)", "face-flux formulas of the contract (they only need to exist for the telescoping argument)"]
-ASSUMPTIONS = ["finite telescoping sums / interchange of finite sums (induction at meta level)",
+ASSUMPTIONS = ["finite telescoping sums / interchange of finite sums: proved in Lean 4 + Mathlib (lean/Telescoping.lean, thorough tier); instantiating its hypotheses with the per-cell identities the solver proves for an arbitrary cell is the remaining meta-level step",
                "ghost relations of zero-derivative / zero-value / periodic conditions as proved in C02",
                "GridBase.integrate = sum(data * outer product of cell_volume_data) (NumPy sum/outer trusted)", "round-off ('to round-off' in the statement)"]
 NOT_COVERED = ["non-conservative spherical operators (the statement says conservative)", "9-point Laplacian (corner_weight != 0): kernel, corner-point setter and diagonal flux form are proved; corner points next to boundaries with non-zero derivative or value conditions do not conserve anything (not claimed by the statement)", "MaterialConservationTracker itself"]
